@@ -43,7 +43,7 @@ for pid in IDS:
     })
 man = {
     'version': 1,
-    'setup_cmd': 'cd lean && lake build',
+    'setup_cmd': './setup',
     'hooks': {
         'guard': 'PYSPH_VERIF',
         'enable': "checks export PYSPH_VERIF=1 and build a scratch copy of /repo's working tree under /var/tmp/pysph-verif (python setup.py build_ext --inplace); no hook code exists in /repo",
